@@ -7,7 +7,7 @@ from typing import Any
 from hypothesis import strategies as st
 
 from core import conc
-from core.runner import Check, Ctx, Violation
+from core.runner import Check, Ctx, Enum, Violation
 from core.sched import Deadlock, Inconclusive, Scheduler
 
 ID = "C04"
@@ -17,17 +17,18 @@ RULE = (
     "cached SQLite, journal file, journal redis; 'processes' = separate storage objects on one "
     "database / file / redis: cached SQLite, journal file with both locks, journal redis): a "
     "queue of 1-4 trials put there by enqueue_trial(params, user_attrs) or add_trial(WAITING), "
+    "possibly with finished trials imported in between (add_trial(COMPLETE)), "
     "optionally after deleting and re-creating the study under the same name and with a worker "
     "that already owns a RUNNING trial; the caller overwrites its own params / user_attrs dicts "
     "right after enqueueing; the workers sample with RandomSampler or with multivariate TPE whose "
     "relative search space contains the queued names; and 2-3 workers running 1-3 actions each (ask() followed "
-    "by suggesting every parameter, enqueue another trial, tell a claimed trial). A "
+    "by suggesting every parameter, enqueue another trial, import a finished trial, tell a claimed trial). A "
     "deterministic scheduler owns the interleaving (yield point = every source line of the "
     "storage layer and of study.py, every system call of the journal file backend, every lock "
     "operation); for every scenario all single-preemption schedules are run (or a stratified "
     "sample of ~150 when there are more) plus generated 2-3-preemption schedules. Oracle: the "
     "trial ids returned by all ask() calls are pairwise distinct; a queued trial is returned at "
-    "most once; a sequential drain afterwards returns every remaining queued trial exactly once "
+    "most once and every queued trial that left the WAITING state was returned by an ask(); a sequential drain afterwards returns every remaining queued trial exactly once "
     "and leaves none WAITING; the worker that gets a queued trial receives the enqueued values "
     "verbatim from suggest, and number and user attributes are those recorded at enqueue time. "
     "Non-trivial = two ask() calls overlap while a WAITING trial exists; distinct = distinct "
@@ -45,10 +46,13 @@ LAYOUTS = [l for l in conc.LAYOUTS if l != "threads:sqlite" and l != "procs:sqli
 @st.composite
 def case_scenario(draw: Any) -> dict[str, Any]:
     nw = draw(st.integers(2, 3))
-    queue = draw(st.lists(st.sampled_from(["enqueue", "enqueue", "add_waiting"]), min_size=1, max_size=4))
+    # "add_finished": a COMPLETE trial is imported (add_trial) while trials are queued
+    queue = draw(st.lists(st.sampled_from(["enqueue", "enqueue", "enqueue", "add_waiting", "add_waiting", "add_finished"]), min_size=1, max_size=4))
+    if all(q == "add_finished" for q in queue):
+        queue[0] = "enqueue"
     workers = []
     for _ in range(nw):
-        workers.append(draw(st.lists(st.sampled_from(["ask", "ask", "ask", "enqueue", "tell"]), min_size=1, max_size=3)))
+        workers.append(draw(st.lists(st.sampled_from(["ask", "ask", "ask", "ask", "ask", "ask", "enqueue", "enqueue", "tell", "tell", "add_finished"]), min_size=1, max_size=3)))
     if not any("ask" in w for w in workers[1:]) or "ask" not in workers[0]:
         workers[0] = ["ask"] + workers[0][:2]
         workers[1] = ["ask"] + workers[1][:2]
@@ -85,7 +89,7 @@ def execute(case: dict[str, Any], preempt: dict[int, int], tmpdir: str, ctx: Ctx
         # of study.py only the queue path is a source of yield points
         only_funcs={study_mod.__file__: {"ask", "_pop_waiting_trial_id", "enqueue_trial", "add_trial", "_should_skip_enqueue", "tell"}},
     )
-    with conc.Env(layout, tmpdir, sched, nw) as env:
+    with conc.Env(layout, tmpdir, sched, nw, pickled=bool(case.get("salt", 0) % 2)) as env:
         s0 = env.setup
         if case["recreate"]:
             old = optuna.create_study(storage=s0, study_name="q")
@@ -107,6 +111,15 @@ def execute(case: dict[str, Any], preempt: dict[int, int], tmpdir: str, ctx: Ctx
         queued: dict[int, dict[str, Any]] = {}  # trial number -> fixed params
 
         def put(study: Any, kind: str, i: int) -> None:
+            if kind == "add_finished":
+                study.add_trial(
+                    optuna.trial.create_trial(
+                        params={"x": 40.0, "c": "b", "k": 40},
+                        distributions={"x": optuna.distributions.FloatDistribution(0, 100), "c": optuna.distributions.CategoricalDistribution(["a", "b", None]), "k": optuna.distributions.IntDistribution(0, 100)},
+                        value=4.0,
+                    )
+                )
+                return
             fp = fixed_params(i)
             ua = {"n": i}
             if kind == "enqueue":
@@ -142,8 +155,8 @@ def execute(case: dict[str, Any], preempt: dict[int, int], tmpdir: str, ctx: Ctx
                             got = {"x": t.suggest_float("x", 0, 100), "c": t.suggest_categorical("c", ["a", "b", None]), "k": t.suggest_int("k", 0, 100)}
                             asks.append((i, t._trial_id, t.number, t.user_attrs.get("n"), got, (t0, sched.steps)))
                             mine.append(t)
-                        elif a == "enqueue":
-                            put(studies[i], "enqueue", 100 + 10 * i + a_i)
+                        elif a in ("enqueue", "add_finished"):
+                            put(studies[i], a, 100 + 10 * i + a_i)
                         elif a == "tell" and mine:
                             studies[i].tell(mine.pop(0), 1.0)
                     except (optuna.exceptions.StorageInternalError, optuna.exceptions.UpdateFinishedTrialError) as e:
@@ -186,6 +199,14 @@ def execute(case: dict[str, Any], preempt: dict[int, int], tmpdir: str, ctx: Ctx
                         raise Violation("enqueued-value-not-delivered", f"{sw}: worker {w} got trial number {num} with fixed params {fp} but suggest returned {got}", None)
                 if t.user_attrs.get("n") != n or (n is not None and n < 100 and fixed_params(n) != fp):
                     raise Violation("queued-trial-lost-its-attributes", f"{sw}: trial {num}: user_attrs {t.user_attrs}, fixed {fp}, worker saw n={n}", None)
+        # a queued trial that is no longer WAITING was handed to some ask() (an ask() that failed
+        # with an allowed storage error may have claimed a trial before failing: only checked in
+        # schedules without such errors)
+        if not errors:
+            handed = {a[2] for a in asks}
+            lost = [(t.number, t.state.name) for t in all_trials if "fixed_params" in t.system_attrs and t.state != TrialState.WAITING and t.number not in handed]
+            if lost:
+                raise Violation("queued-trial-lost", f"{sw}: queued trial(s) {lost} left the WAITING state but no ask() returned them; asks returned numbers {sorted(handed)}", None)
         # drain sequentially: every remaining WAITING trial is handed out exactly once
         drain = optuna.load_study(study_name="q", storage=view, sampler=optuna.samplers.RandomSampler(seed=99))
         waiting = [t.number for t in all_trials if t.state == TrialState.WAITING]
@@ -224,7 +245,7 @@ def run_scenario(case: dict[str, Any], ctx: Ctx) -> None:
         one({int(k): int(c) for k, c in case["schedule"]})
         return
     n = one({})
-    limit = (50 if "sqlite" in case["layout"] else 90) if ctx.tier == "quick" else 100000
+    limit = case.get("limit_quick", 50 if "sqlite" in case["layout"] else 90) if ctx.tier == "quick" else 100000
     pts = conc.switch_points(n, len(case["workers"]), limit, case["salt"])
     for p in pts:
         one(p)
@@ -234,6 +255,28 @@ def run_scenario(case: dict[str, Any], ctx: Ctx) -> None:
     ctx.event("yield_points", n)
 
 
+def enum_classic(ctx: Ctx, tier: str, shard: int, nshards: int) -> None:
+    """The plain claim race -- one queued trial, two workers that both ask() -- on every layout,
+    with the workers' journal storages constructed independently and as pickled copies: every
+    fourth yield point x the other worker in the quick tier (a window of four consecutive yield
+    points is always hit), every yield point in the thorough tier."""
+    jobs = []
+    for lay in LAYOUTS:
+        for pickled in (0, 1) if lay.startswith("procs:journal") else (0,):
+            for sampler in ("random",):
+                jobs.append((lay, pickled, sampler))
+    for i, (lay, pickled, sampler) in enumerate(jobs):
+        if i % nshards != shard:
+            continue
+        case = {"layout": lay, "queue": ["enqueue"], "recreate": False, "owner_has_running": False, "sampler": sampler, "workers": [["ask"], ["ask"]], "multi": [], "salt": 2 * i + pickled, "limit_quick": 60 if "sqlite" in lay else 230}
+        ctx.sub = "classic"
+        run_scenario(case, ctx)
+        ctx.event("classic:two-workers-ask-one-queued-trial" + (":pickled-storages" if pickled else ""))
+    ctx.exhaustive_parts.append("thorough tier: every single-preemption schedule of the two-workers-one-queued-trial race on every layout")
+
+
 CHECKS = [
     Check("scenario", lambda tier: case_scenario(), run_scenario, {"quick": 24, "thorough": 1200}, budget_s={"quick": 170, "thorough": 3000}, shrink=False, case_timeout=1500),
 ]
+ENUMS = [Enum("classic", enum_classic)]
+REPLAY = {"classic": run_scenario}
